@@ -483,12 +483,13 @@ Proof.
   - apply Z.leb_le. lia.
 Qed.
 
-Lemma liveness_sound i : lv_holds i (fst (liveness i)).
+Lemma liveness_gen_sound ft i :
+  lv_holds i (fst (if registered_true i then (O, ROk) else lv_launch_phase_gen ft i)).
 Proof.
-  intros Hpos. unfold liveness in Hpos.
+  intros Hpos.
   destruct (registered_true i) eqn:Hrf; [simpl in Hpos; inversion Hpos|].
   split; [apply registered_true_false; exact Hrf|].
-  unfold lv_launch_phase in Hpos.
+  unfold lv_launch_phase_gen in Hpos.
   destruct (l_launched i) as [[ls lt]|] eqn:Hl; [|simpl in Hpos; inversion Hpos].
   destruct (is_true ls) eqn:Hls.
   - right. apply reg_timed_out_iff.
@@ -498,11 +499,17 @@ Proof.
     left. exists ls, lt. split; [reflexivity|]. split; [apply is_true_false; exact Hls|lia].
 Qed.
 
+Lemma liveness_sound i : lv_holds i (fst (liveness i)).
+Proof. exact (liveness_gen_sound false i). Qed.
+
+Lemma liveness_prefix_sound i : lv_holds i (fst (liveness_prefix i)).
+Proof. exact (liveness_gen_sound true i). Qed.
+
 (* a failed (non-NotFound) NodePool read/patch before the first Delete prevents any Delete *)
 Lemma liveness_pool_failure_blocks_l i : nth_pool i O <> HProceed -> fst (liveness i) = O.
 Proof.
   intros Hp. unfold liveness. destruct (registered_true i); [reflexivity|].
-  unfold lv_launch_phase. destruct (l_launched i) as [[ls lt]|]; [|reflexivity].
+  unfold lv_launch_phase, lv_launch_phase_gen. destruct (l_launched i) as [[ls lt]|]; [|reflexivity].
   destruct (is_true ls).
   - unfold lv_reg_phase. destruct (l_registered i) as [[s rt]|]; [|reflexivity].
     destruct (0 <? reg_timeout - (l_now i - rt)); [reflexivity|].
@@ -511,22 +518,37 @@ Proof.
     destruct (nth_pool i O); try reflexivity; contradiction.
 Qed.
 
-(* at most two Deletes, and two only if both timeouts have elapsed *)
-Lemma liveness_two_deletes_l i : (fst (liveness i) <= 2)%nat /\
-  (fst (liveness i) = 2%nat -> launch_timed_out i = true /\ reg_timed_out i = true).
+(* one reconcile issues at most one Delete (since 3cbc43e89) *)
+Lemma liveness_at_most_one_delete_l i : (fst (liveness i) <= 1)%nat.
 Proof.
-  unfold liveness. destruct (registered_true i) eqn:Hrf; [simpl; split; [lia|discriminate]|].
-  pose proof (lv_reg_phase_inv i O Hrf) as H0. pose proof (lv_reg_phase_inv i 1%nat Hrf) as H1.
-  unfold lv_launch_phase, launch_timed_out.
-  destruct (l_launched i) as [[ls lt]|]; [|simpl; split; [lia|discriminate]].
-  destruct (is_true ls) eqn:Hls.
-  - destruct H0 as [H0|[H0 _]]; rewrite H0; split; try lia; discriminate.
-  - cbv zeta. destruct (Z.ltb_spec 0 (launch_timeout - (l_now i - lt))) as [Hlt|Hge];
-      [simpl; split; [lia|discriminate]|].
-    destruct (nth_pool i O); try (simpl; split; [lia|discriminate]).
-    destruct (nth_del i O); try (simpl; split; [lia|discriminate]).
-    destruct H1 as [H1|[H1 Ht]]; rewrite H1; (split; [lia|]); [discriminate|].
-    intros _. split; [|exact Ht]. simpl. apply Z.leb_le. lia.
+  unfold liveness. destruct (registered_true i) eqn:Hrf; [simpl; lia|].
+  pose proof (lv_reg_phase_inv i O Hrf) as H0.
+  unfold lv_launch_phase, lv_launch_phase_gen.
+  destruct (l_launched i) as [[ls lt]|]; [|simpl; lia].
+  destruct (is_true ls).
+  - destruct H0 as [H0|[H0 _]]; rewrite H0; lia.
+  - cbv zeta. destruct (0 <? launch_timeout - (l_now i - lt)); [simpl; lia|].
+    destruct (nth_pool i O); try (simpl; lia). destruct (nth_del i O); simpl; lia.
+Qed.
+
+(* before the fix: a second Delete in the same reconcile when both timeouts had elapsed *)
+Definition double_delete_input : lv_in :=
+  mkLv (Some (CUnknown, 0)) (Some (CFalse, 0)) reg_timeout [(Some AOk, None); (Some AOk, None)] [AOk; AOk].
+
+Lemma liveness_prefix_double_delete_l : exists i, fst (liveness_prefix i) = 2%nat.
+Proof. exists double_delete_input. vm_compute. reflexivity. Qed.
+
+(* ... and only then: the old code agrees with the fixed one unless the registration timeout has elapsed too *)
+Lemma liveness_prefix_partial_l i : reg_timed_out i = false -> fst (liveness_prefix i) = fst (liveness i).
+Proof.
+  intros Hr. unfold liveness_prefix, liveness. destruct (registered_true i) eqn:Hrf; [reflexivity|].
+  pose proof (lv_reg_phase_inv i 1%nat Hrf) as H1.
+  unfold lv_launch_phase, lv_launch_phase_gen.
+  destruct (l_launched i) as [[ls lt]|]; [|reflexivity].
+  destruct (is_true ls); [reflexivity|]. cbv zeta.
+  destruct (0 <? launch_timeout - (l_now i - lt)); [reflexivity|].
+  destruct (nth_pool i O); try reflexivity. destruct (nth_del i O); try reflexivity.
+  destruct H1 as [H1|[_ Ht]]; [rewrite H1; reflexivity|]. rewrite Ht in Hr. discriminate.
 Qed.
 
 (* ------------------------------------------------------------------ node repair *)
